@@ -59,7 +59,7 @@ func (S) Info() scen.Info {
 			"goroutine scheduling": "stub: seeded one-at-a-time scheduler; yields between operations, between reader chunks, inside visitor and transform callbacks",
 		},
 		QuickUnits: 24000, ThoroughUnits: 3000000, QuickSecs: 40, ThoroughSecs: 1200,
-		ProbeKeys: []string{"probe.reset_producer", "probe.assign_then_reset", "probe.copy_and_extend", "probe.largebytes_interleaved", "probe.two_readers_same_node", "probe.subset_match_bytes", "probe.subset_match_string", "probe.focused_transform", "probe.walk_transform", "probe.abandoned_builder", "probe.typed_node_in_pool", "probe.stream_bytes_node", "probe.callback_interleaved", "probe.loaded_node_in_pool", "probe.load_while_holding_loaded_nodes", "probe.iterator_nodes_retained"},
+		ProbeKeys: []string{"probe.reset_producer", "probe.assign_then_reset", "probe.copy_and_extend", "probe.largebytes_interleaved", "probe.two_readers_same_node", "probe.subset_match_bytes", "probe.subset_match_string", "probe.focused_transform", "probe.walk_transform", "probe.abandoned_builder", "probe.typed_node_in_pool", "probe.stream_bytes_node", "probe.callback_interleaved", "probe.loaded_node_in_pool", "probe.load_while_holding_loaded_nodes", "probe.iterator_nodes_retained", "probe.lookup_result_retained"},
 		EventsKey: "events",
 	}
 }
@@ -70,6 +70,7 @@ type entry struct {
 	origin string
 	nb     datamodel.NodeBuilder // the builder that produced it, when retained
 	enc    []byte                // dag-cbor encoding at birth (nil if not encodable)
+	encJ   []byte                // dag-json encoding at birth (nil if not encodable)
 }
 
 type reader struct {
@@ -153,6 +154,10 @@ func (w *world) add(n datamodel.Node, snap *model.V, origin string, nb datamodel
 	var buf bytes.Buffer
 	if pan := safe(func() { err = dagcbor.Encode(n, &buf) }); pan == "" && err == nil {
 		e.enc = buf.Bytes()
+	}
+	var bufJ bytes.Buffer
+	if pan := safe(func() { err = dagjson.Encode(n, &bufJ) }); pan == "" && err == nil {
+		e.encJ = bufJ.Bytes()
 	}
 	w.pool = append(w.pool, e)
 	return len(w.pool) - 1
@@ -262,7 +267,7 @@ func (S) RunTape(t *sim.Tape, st *sim.Stats, keepLog bool) *sim.Outcome {
 	total := 0
 	for h := 0; h < nh; h++ {
 		for total < 80 && len(plans[h]) < 30 && t.Begin("step", 92) {
-			plans[h] = append(plans[h], step{t.Choice(19, "op"), t.Choice(64, "a"), t.Choice(64, "b"), t.Choice(64, "c")})
+			plans[h] = append(plans[h], step{t.Choice(21, "op"), t.Choice(64, "a"), t.Choice(64, "b"), t.Choice(64, "c")})
 			total++
 			t.End()
 		}
@@ -533,6 +538,13 @@ func (w *world) step(h int, rd *reader, op, a, b, c int) string {
 		if pan != "" || err != nil || !bytes.Equal(buf.Bytes(), e.enc) {
 			w.o.Fail("encoding-changed", e.origin, "node #%d (from %s) encodes differently now than at birth (err=%v panic=%s)", i, e.origin, err, pan)
 		}
+		if e.encJ != nil {
+			var bj bytes.Buffer
+			pan = safe(func() { err = dagjson.Encode(e.n, &bj) })
+			if pan != "" || err != nil || !bytes.Equal(bj.Bytes(), e.encJ) {
+				w.o.Fail("encoding-changed", e.origin, "node #%d (from %s) encodes to other dag-json now than at birth (err=%v panic=%s)", i, e.origin, err, pan)
+			}
+		}
 		return fmt.Sprintf("encode(%s#%d)", e.origin, i)
 	case 4, 5: // copy / assign into another builder, then extend it
 		j := b % len(w.pool)
@@ -778,6 +790,45 @@ func (w *world) step(h int, rd *reader, op, a, b, c int) string {
 		w.share = true
 		w.st.Inc("probe.iterator_nodes_retained")
 		return fmt.Sprintf("retain-iterator-nodes(%s#%d)", e.origin, i)
+	case 19, 20: // nodes returned by lookups are retained (by key, by index, by segment, by node)
+		if e.snap.K != model.Map && e.snap.K != model.List || len(e.snap.Vals) == 0 {
+			return "lookup-skip"
+		}
+		j := b % len(e.snap.Vals)
+		var got datamodel.Node
+		var err error
+		pan := safe(func() {
+			if e.snap.K == model.Map {
+				k := e.snap.Keys[j]
+				switch c % 3 {
+				case 0:
+					got, err = e.n.LookupByString(k)
+				case 1:
+					got, err = e.n.LookupByNode(basicnode.NewString(k))
+				default:
+					got, err = e.n.LookupBySegment(datamodel.PathSegmentOfString(k))
+				}
+			} else {
+				switch c % 3 {
+				case 0:
+					got, err = e.n.LookupByIndex(int64(j))
+				case 1:
+					got, err = e.n.LookupByNode(basicnode.NewInt(int64(j)))
+				default:
+					got, err = e.n.LookupBySegment(datamodel.PathSegmentOfInt(int64(j)))
+				}
+			}
+		})
+		if pan == "" && err == nil && got != nil {
+			// typed maps may hold the same key twice (bindnode accepts it): a lookup then rightly finds one of the two
+			if e.snap.K == model.List || countKey(e.snap, e.snap.Keys[j]) == 1 {
+				w.add(got, e.snap.Vals[j], "lookup-result-of-"+e.origin, nil)
+			} else {
+				w.add(got, nil, "lookup-result-of-"+e.origin, nil)
+			}
+			w.st.Inc("probe.lookup_result_retained")
+		}
+		return fmt.Sprintf("retain-lookup(%s#%d,%d)", e.origin, i, j)
 	case 18: // a reflection-bound typed map whose builder was given the same key twice (it does not refuse)
 		w.spawn(9)
 		return "spawn(bindnode-map-repeated-key)"
@@ -816,6 +867,16 @@ func (w *world) step(h int, rd *reader, op, a, b, c int) string {
 		return fmt.Sprintf("subset-match(%s#%d,%d:%d)", e.origin, i, from, from+ln)
 	}
 	return "noop"
+}
+
+func countKey(v *model.V, k string) int {
+	n := 0
+	for _, x := range v.Keys {
+		if x == k {
+			n++
+		}
+	}
+	return n
 }
 
 func min64(a, b int64) int64 {
